@@ -717,6 +717,13 @@ fn spawn(tier: &str, shard: u64, n: u64, seed: u64, skip: &BTreeSet<u64>, resume
     (child, rx)
 }
 
+/// 1 on a machine that is not overloaded, load / cores above that (at most 4)
+fn load_factor() -> f64 {
+    let load = std::fs::read_to_string("/proc/loadavg").ok().and_then(|s| s.split_whitespace().next().and_then(|x| x.parse::<f64>().ok())).unwrap_or(0.0);
+    let cores = std::thread::available_parallelism().map(|n| n.get()).unwrap_or(16) as f64;
+    (load / cores).clamp(1.0, 4.0)
+}
+
 pub fn run(tier: &str, seed: u64) -> i32 {
     let t0 = Instant::now();
     crate::inst::cleanup_stale_scratch();
@@ -734,6 +741,7 @@ pub fn run(tier: &str, seed: u64) -> i32 {
     let mut errors: Vec<String> = Vec::new();
     // statistics of killed workers are lost except for what the parent tracks itself
     let mut parent_done: u64 = 0;
+    let mut stalls_between_cases = 0u64;
     while runs.iter().any(|r| !r.done) {
         for r in runs.iter_mut().filter(|r| !r.done) {
             loop {
@@ -744,6 +752,10 @@ pub fn run(tier: &str, seed: u64) -> i32 {
                             let (id, what) = x.split_once(' ').unwrap_or((x, ""));
                             r.current = Some((id.parse().unwrap_or(0), what.to_string()));
                         } else if l.starts_with("@@DONE ") {
+                            // (a worker restarted after a stall continues behind the last finished case)
+                            if let Some((id, _)) = &r.current {
+                                r.resume = r.resume.max(id + 1);
+                            }
                             r.current = None;
                             parent_done += 1;
                         } else if let Some(x) = l.strip_prefix("@@RESULT ") {
@@ -790,7 +802,9 @@ pub fn run(tier: &str, seed: u64) -> i32 {
                     }
                 }
             }
-            if !r.done && r.last.elapsed() > watchdog {
+            // the limit is stretched when the machine is overloaded (1-minute load above the core count): a
+            // starved worker is not a hanging request
+            if !r.done && r.last.elapsed() > watchdog.mul_f64(load_factor()) {
                 // no progress: the request does not terminate
                 let _ = r.child.kill();
                 let _ = r.child.wait();
@@ -800,7 +814,12 @@ pub fn run(tier: &str, seed: u64) -> i32 {
                         r.skip.insert(id);
                         r.resume = id + 1;
                     }
-                    None => errors.push(format!("worker {} stalled between cases", r.shard)),
+                    None => {
+                        stalls_between_cases += 1;
+                        if stalls_between_cases > 6 {
+                            errors.push(format!("worker {} stalled between cases (more than 6 such stalls in this run)", r.shard));
+                        }
+                    }
                 }
                 let (c, rx) = spawn(tier, r.shard, n, seed, &r.skip, r.resume);
                 r.child = c;
